@@ -63,7 +63,23 @@ func dirHash(dir string) map[string][32]byte {
 func scenarioStart(c *hlib.RunCtx) *hlib.Violation {
 	t := c.Tape
 	start := time.Date(2024, 3, 1, 12, 0, 0, 0, time.UTC).Add(time.Duration(t.Draw(1000)) * time.Hour)
+	// One run in five plays on a machine whose local zone changes its offset
+	// about now (clocks spring forward, or fall back): a calendar day is then 23
+	// or 25 hours long, the token period is 24 hours all the same.
+	var dst *time.Location
+	if t.Bool(1, 5) {
+		if l, err := time.LoadLocation([]string{"America/New_York", "Europe/Berlin"}[t.Draw(2)]); err == nil {
+			dst = l
+			change := []time.Time{time.Date(2024, 3, 10, 7, 0, 0, 0, time.UTC), time.Date(2024, 11, 3, 6, 0, 0, 0, time.UTC),
+				time.Date(2024, 3, 31, 1, 0, 0, 0, time.UTC), time.Date(2024, 10, 27, 1, 0, 0, 0, time.UTC)}[t.Draw(4)]
+			start = change.Add(time.Duration(t.Draw(30*60)) * time.Minute)
+		}
+	}
 	s := simrt.New(t, c.Dir, start)
+	if dst != nil {
+		s.SetZone(dst)
+		s.Probe("zone-with-a-clock-change")
+	}
 	s.KeepTrace = true
 	s.TraceCap = 6000
 	if c.Trace {
